@@ -238,6 +238,11 @@ pub const STMT_CORE: &[&str] = &[
     "function f()\n\treturn 1\n\t-- c\nend",
     "local t = {\n\t1,\n\t-- c\n}",
     "x = t[function() return 1 end]",
+    "x = t[([[x]])]",
+    "y = { [([[k]])] = 1 }",
+    "x = t[ [=[x]=] ]",
+    "y = { [ [==[k]==] ] = 1 }",
+    "x = t[ [[a]] .. b ]",
     "x = a.b[c].d[e]",
     // multi-line tokens (line-ending conversion inside long strings and block comments)
     "local x = [[a\nb]]",
@@ -306,6 +311,9 @@ pub const STMT_LUAU: &[&str] = &[
     "while a do if b then continue end end",
     "while a do continue; end",
     "x += 1; (g)()",
+    "x += y; (g)()",
+    "x ..= y; (a).b = 1",
+    "local t: T = v; (g)()",
     "local x = if a then b else c",
     "local x = if a then b elseif c then d else e",
     "local x = (if a then b else c) + 1",
